@@ -436,6 +436,7 @@ diskdump_read_page(struct page_io *pio)
 					 "Wrong uncompressed size: %lu",
 					 (unsigned long) retlen);
 #else
+		fcache_put_chunk(&fch);
 		return set_error(ctx, KDUMP_ERR_NOTIMPL,
 				 "Unsupported compression method: %s",
 				 "lzo");
@@ -456,6 +457,7 @@ diskdump_read_page(struct page_io *pio)
 					 "Wrong uncompressed size: %lu",
 					 (unsigned long) retlen);
 #else
+		fcache_put_chunk(&fch);
 		return set_error(ctx, KDUMP_ERR_NOTIMPL,
 				 "Unsupported compression method: %s",
 				 "snappy");
@@ -474,6 +476,7 @@ diskdump_read_page(struct page_io *pio)
 			return set_error(ctx, KDUMP_ERR_CORRUPT,
 					 "Wrong uncompressed size: %zu", ret);
 #else
+		fcache_put_chunk(&fch);
 		return set_error(ctx, KDUMP_ERR_NOTIMPL,
 				 "Unsupported compression method: %s",
 				 "zstd");
